@@ -210,7 +210,18 @@ func (db *Backend) HeadObject(bucketName, objectName string) (*gofakes3.Object, 
 		return nil, gofakes3.KeyNotFound(objectName)
 	}
 
-	return obj.data.toObject(nil, false)
+	result, err := obj.data.toObject(nil, false)
+	if err != nil {
+		return nil, err
+	}
+
+	// As in GetObject: outside an Enabled bucket the internal version id is
+	// not reported.
+	if bucket.versioning != gofakes3.VersioningEnabled {
+		result.VersionID = ""
+	}
+
+	return result, nil
 }
 
 func (db *Backend) GetObject(bucketName, objectName string, rangeRequest *gofakes3.ObjectRangeRequest) (*gofakes3.Object, error) {
